@@ -187,9 +187,14 @@ class DecoyFasta():
 
         if self.enzyme is not None:
             rule = self.enzyme
-            exception = 'trypsin_expection' if self.enzyme == 'trypsin' else None
-            fixed_indices += aa.AminoAcidSeqRecord(seq) \
+            exception = 'trypsin_exception' if self.enzyme == 'trypsin' else None
+            sites = aa.AminoAcidSeqRecord(seq) \
                 .find_all_enzymatic_cleave_sites(rule, exception)
+            # A site is the index of the first residue after the cleaved bond.
+            # The residue the rule names is the one before the bond, unless
+            # the enzyme cleaves N-terminal to its residue (e.g. Lys-N, Asp-N).
+            offset = 0 if EXPASY_RULES[rule].startswith(r'\w(?=') else -1
+            fixed_indices += [i + offset for i in sites if 0 < i < len(seq)]
 
         for i, it in enumerate(seq):
             if i == 0 and self.keep_peptide_nterm:
